@@ -121,19 +121,24 @@ partial def dfs (ops : Array HOp) (budget : Nat) (lo : Nat) (done : Nat) (k : Na
           | none => modify fun s => { s with memo := s.memo.insert key }
     return none
 
-def sortByInv (ops : List HOp) : Array HOp := (ops.toArray.qsort (fun a b => a.inv < b.inv))
+def sortedByInv : List HOp → Bool
+  | a :: b :: rest => decide (a.inv ≤ b.inv) && sortedByInv (b :: rest)
+  | _ => true
 
 inductive Verdict
   | accept
   | reject (why : String)
 deriving DecidableEq, Repr
 
-/-- Decide a recorded history: search for a linearisation, accept iff it validates. -/
-def decideHist (h : List HOp) (budget : Nat := 2000000) : Verdict :=
-  let ops := sortByInv h
-  match (dfs ops budget 0 0 0 seqInit []).run { memo := {}, nodes := 0 } with
-  | (some w, _) => if validate ops w then .accept else .reject "witness-does-not-validate"
-  | (none, s) => if s.nodes > budget then .reject "budget-exhausted" else .reject "not-linearizable"
+/-- Decide a recorded history (operations in invocation order): search for a linearisation, accept
+iff it validates. -/
+def decideHist (h : List HOp) (budget : Nat := 400000) : Verdict :=
+  if !sortedByInv h then .reject "history-not-in-invocation-order"
+  else
+    let ops := h.toArray
+    match (dfs ops budget 0 0 0 seqInit []).run { memo := {}, nodes := 0 } with
+    | (some w, _) => if validate ops w then .accept else .reject "witness-does-not-validate"
+    | (none, s) => if s.nodes > budget then .reject "budget-exhausted" else .reject "not-linearizable"
 
 /-! ## line protocol of `drv_c05` -/
 open Hive.Proto
